@@ -13,6 +13,7 @@ import sys
 VERIF = os.path.dirname(os.path.dirname(os.path.abspath(__file__)))
 PROPS = [c["property_id"] for c in json.load(open(os.path.join(VERIF, "MANIFEST.json")))["checks"]]
 TIMEOUT = int(os.environ.get("MATRIX_CHECK_TIMEOUT", "1500"))
+HOME_FIRST = False
 
 
 def sh(cmd, **kw):
@@ -35,7 +36,13 @@ def work(idx, q, out):
             out.append((name, None, "patch does not apply: " + a.stderr.strip()[:200]))
             continue
         res = {}
-        for p in PROPS:
+        home = name.split("-")[0] if HOME_FIRST and not name.startswith("mutant:") else None
+        order = ([home] + [p for p in PROPS if p != home]) if home in PROPS else list(PROPS)
+        for p in order:
+            if home is not None and p != home and res.get(home, "").startswith("caught: src"):
+                # home-first mode: the home check reports the change; the other checks are not run in this pass (an earlier
+                # full pass may have recorded them; they are kept)
+                break
             try:
                 c = subprocess.run(["./check", p], cwd=VERIF, env=env, capture_output=True, text=True, timeout=TIMEOUT)
             except subprocess.TimeoutExpired:
@@ -59,6 +66,10 @@ def main():
     refactors = False
     if args and args[0] == "--refactors":
         refactors = True
+        args = args[1:]
+    global HOME_FIRST
+    if args and args[0] == "--home-first":
+        HOME_FIRST = True
         args = args[1:]
     j = 4
     if args and args[0] == "-j":
@@ -85,6 +96,10 @@ def main():
     store_p = os.path.join(sd, "matrix.json")
     store = json.load(open(store_p)) if os.path.exists(store_p) else {}
     for name, res, err in results:
+        if HOME_FIRST and res is not None and name in store and isinstance(store[name].get("res"), dict) and len(res) < len(PROPS):
+            merged = dict(store[name]["res"])  # verdicts of checks not run in this pass are kept from the last full pass
+            merged.update(res)
+            res = merged
         store[name] = {"res": res, "err": err}
     # entries whose change no longer exists are dropped
     present = {n for n in os.listdir(sd) if os.path.exists(os.path.join(sd, n, "patch.diff"))}
